@@ -349,6 +349,7 @@ def apply_op(w, op, res, reading, skip=False):
                 if g is None:
                     return 'none'
                 res.probe('copy_read')
+                w.mark_read(g.subset_state)     # a copy of a many-way or shares its member objects (and their memo entries)
                 d.get_mask(g.subset_state.copy())
         except IncompatibleAttribute:
             return 'incompatible'
